@@ -9,6 +9,7 @@ import Cerberus.Model.Render
 import Cerberus.Model.Setters
 import Cerberus.Model.Validate
 import Cerberus.Model.Normalize
+import Cerberus.Model.Api
 import Cerberus.Extracted
 open Lean Cerberus Cerberus.Codec
 
@@ -231,6 +232,69 @@ def portNormalize (full : Bool) (j : Json) : Except String Json := do
     else pure (docOutcomeToJson (normalize env fuel ctx schema kvs))
   | _ => throw "doc must be a dict"
 
+/-! ### port `api`: a sequence of calls on one instance -/
+
+def optSchemaOfJson (j : Json) : Except String (Option Val × Option (String × Option Val)) := do
+  -- {"raw": Val, "acc": Val | null}  or  null
+  match j with
+  | .null => pure (none, none)
+  | _ =>
+    let raw ← valOfJson (← j.getObjVal? "raw")
+    let acc ← match j.getObjVal? "acc" with
+      | .ok .null => pure none
+      | .ok a => do pure (some (← valOfJson a))
+      | .error _ => pure none
+    pure (some raw, some ((valToJson raw).compress, acc))
+
+def opOfJson (j : Json) : Except String (Op × Option (String × Option Val)) := do
+  let kind ← jstr (← j.getObjVal? "op")
+  let getB (k : String) (d : Bool) : Bool := (j.getObjVal? k).toOption.bind (·.getBool?.toOption) |>.getD d
+  if kind == "errors" then return (.readErrors, none)
+  let doc ← valOfJson (← j.getObjVal? "doc")
+  let (sch, ent) ← optSchemaOfJson ((j.getObjVal? "schema").toOption.getD .null)
+  match kind with
+  | "validate" => pure (.validate doc sch (getB "update" false) (getB "normalize" true), ent)
+  | "validated" => pure (.validated doc sch (getB "update" false) (getB "normalize" true) (getB "always" false), ent)
+  | "normalized" => pure (.normalized doc sch (getB "always" false), ent)
+  | _ => throw s!"bad op {kind}"
+
+def retToJson : Ret → Json
+  | .bool b => Json.mkObj [("bool", Json.bool b)]
+  | .doc none => Json.mkObj [("doc", Json.null)]
+  | .doc (some d) => Json.mkObj [("doc", valToJson d)]
+  | .rendered t => Json.mkObj [("rendered", ptToJson t)]
+  | .raised (.py t s) => Json.mkObj [("raised", Json.arr #[Json.str t, Json.str s])]
+  | .raised .schemaRuleType => Json.mkObj [("raised", Json.arr #[Json.str "_SchemaRuleTypeError", Json.str ""])]
+  | .raised .fuel => Json.mkObj [("raised", Json.arr #[Json.str "fuel", Json.str ""])]
+  | .raised (.oracle w) => Json.mkObj [("need", Json.str w)]
+
+def obsToJson (o : Obs) : Json :=
+  Json.mkObj [("ret", retToJson o.ret), ("errors", errsToJson o.errors),
+              ("document", match o.document with | some d => valToJson d | none => Json.null)]
+
+def portApi (j : Json) : Except String Json := do
+  let env ← envOfJson j
+  let cfg ← cfgOfJson j
+  let schema ← match j.getObjVal? "schema" with
+    | .ok .null => pure none
+    | .ok v => do pure (some (← valOfJson v))
+    | .error _ => pure none
+  let fuel := (j.getObjVal? "fuel").toOption.bind (·.getNat?.toOption) |>.getD 40
+  let opsj ← jarr (← j.getObjVal? "ops")
+  let parsed ← opsj.toList.mapM opOfJson
+  let table := parsed.filterMap (·.2)
+  let accept : Val → Option Val := fun v =>
+    let key := (valToJson v).compress
+    match table.find? (fun e => e.1 == key) with
+    | some (_, acc) => acc
+    | none => none
+  let s0 : VState := { schema := schema, cfg := cfg }
+  let (_, obs) := parsed.foldl (fun (st : VState × List Json) p =>
+      let (s', o) := Api.step env Extracted.tables accept fuel st.1 p.1
+      (s', st.2 ++ [obsToJson o])) (s0, [])
+  -- a regex-oracle question anywhere in the run is passed up
+  pure (Json.mkObj [("obs", Json.arr obs.toArray)])
+
 def handle (line : String) : Json :=
   match Json.parse line with
   | .error e => Json.mkObj [("error", Json.str s!"parse: {e}")]
@@ -245,6 +309,7 @@ def handle (line : String) : Json :=
       | "validate0" => portValidate0 j
       | "normalize" => portNormalize false j
       | "validate" => portNormalize true j
+      | "api" => portApi j
       | "ping" => pure (Json.str "pong")
       | _ => throw s!"bad-op {port}"
     match r with
